@@ -40,14 +40,17 @@ def compute_aliases(d):
     import re
     cache = os.path.join(d, "aliases.json")
     if os.path.exists(cache) and (not os.path.exists(PINNED_ITEMS) or os.path.getmtime(cache) >= os.path.getmtime(PINNED_ITEMS)):
-        return json.load(open(cache))
+        try:
+            return json.load(open(cache))
+        except (OSError, ValueError):
+            pass                      # being written by a concurrent check: recompute
     if not os.path.exists(PINNED_ITEMS):
         return {}
     pinned = json.load(open(PINNED_ITEMS))
     pin_adts, pin_fns = set(pinned["adts"]), set(pinned["fns"])
     cur_adts, cur_fns, cur_sigs = set(), set(), {}
     for f in sorted(os.listdir(d)):
-        if f.endswith(".json") and f not in ("c_facts.json", "aliases.json"):
+        if f.endswith(".json") and f not in ("c_facts.json", "aliases.json") and ".tmp" not in f:
             cj = json.load(open(os.path.join(d, f)))
             a, b = item_names(cj)
             cur_adts |= a
@@ -104,8 +107,10 @@ def compute_aliases(d):
         if len(g) == 1 and len(nw) == 1:
             aliases[inv.get(nw[0], nw[0])] = g[0]
     try:
-        with open(cache, "w") as fh:
+        tmp = "%s.%d.tmp" % (cache, os.getpid())
+        with open(tmp, "w") as fh:
             json.dump(aliases, fh, indent=1, sort_keys=True)
+        os.replace(tmp, cache)        # atomic: concurrent checks of the same tree never see a partial file
     except OSError:
         pass
     return aliases
@@ -128,7 +133,7 @@ class Facts:
         self.aliases = compute_aliases(d)
         alias_res = [(re.compile(re.escape(a) + IDENT_END), b) for a, b in sorted(self.aliases.items(), key=lambda kv: -len(kv[0]))]
         for f in sorted(os.listdir(d)):
-            if not f.endswith(".json") or f in ("c_facts.json", "aliases.json"):
+            if not f.endswith(".json") or f in ("c_facts.json", "aliases.json") or ".tmp" in f:
                 continue
             cname = f.split(".")[0]
             if crates is not None and cname not in crates:
